@@ -4,7 +4,7 @@ from hqrules.templates import (effect_blocks, must_pass, state_writes, variants_
                                check_arm_effect, pick_scrutinee, loop_headers_containing, owner_fn, scrutinees,
                                field_read_sites, local_field_sources, _direct_effect_blocks)
 from .common import *
-from . import reactor_table
+from . import reactor_table, shared_rules
 
 EXPLANATION = ('Structural necessary conditions of C08: on_cancel_tasks releases the bookkeeping owed by each old state, notifies the '
                'worker and forgets the task and its recursive consumers; a queue-resident state must be dequeued when left (R08.2); '
@@ -23,6 +23,22 @@ def run(ctx):
     ctx.rule('R08.3', 'cancel_job: no effect when nothing is non-terminal (idempotence), core first, no await')
     ctx.rule('R08.4', 'worker CancelTasks handler touches every WorkerState container that can hold a task (running_tasks, prefilled_tasks)')
 
+    ctx.rule('R08.5', 'worker: when a (canceled) task future ends, every path hands its allocation to prefill_loop, which reuses or releases it')
+    ctx.rule('R08.6', 'an answered cancel survives a restart: the TasksCanceled replay records never-started tasks as Canceled')
+    shared_rules.replay_records_missing_entry(ctx, 'R08.6', events=(('TasksCanceled', 'Canceled'),))
+    htf = [prog.bodies[p] for p in prog.with_closures(T + 'worker::reactor::handle_task_future') if prog.bodies[p].kind == 'coroutine']
+    ctx.require(htf, 'R08.5: handle_task_future')
+    hb = htf[0]
+    rr = hb.call_blocks(T + 'worker::state::WorkerState::remove_running_task')
+    pl_ = hb.call_blocks(T + 'worker::reactor::prefill_loop')
+    ctx.require(rr and pl_, 'R08.5: anchors in handle_task_future')
+    ok, wit = must_pass(hb, rr, pl_)
+    ctx.ob('R08.5', 'handle_task_future|allocation always handed on', ok, 'after the running task is removed every path (finished, failed, timed out, canceled) reaches prefill_loop with its allocation', hb.loc(wit[1]) if wit else hb.loc(rr[0]))
+    pf = prog.body(T + 'worker::reactor::prefill_loop')
+    rel = pf.call_blocks(T + 'worker::resources::allocator::ResourceAllocator::release_allocation')
+    tst = pf.call_blocks(T + 'worker::reactor::try_start_task')
+    ok2, wit2 = must_pass(pf, [0], set(rel) | set(tst))
+    ctx.ob('R08.5', 'prefill_loop|reuse or release', bool(rel) and ok2, 'prefill_loop either starts a backlog task with the allocation or releases it, on every path', pf.loc())
     oct_ = prog.body(REACTOR + 'on_cancel_tasks')
     n = reactor_table.run_rows(ctx, 'R08.1', 'C08')
     ctx.floor('R08.1', n, 8, 'reactor rows for C08')
